@@ -24,7 +24,7 @@ class T:
 
 class FunGen:
     def __init__(self, rng, mode="seq", pressure=False, budget=(6, 16), ndefs=(2, 5), max_main_params=3,
-                 wide=False, polymorphic=True, labels=True, big_lits=True):
+                 wide=False, polymorphic=True, labels=True, big_lits=True, twin=False):
         self.r = rng
         self.mode = mode
         self.names = NAMES_PRESSURE if pressure else NAMES_PLAIN
@@ -41,6 +41,8 @@ class FunGen:
         self.insts = []    # concrete types usable in the program (strings)
         self.defs = []     # dict(name, params [(name, chi, ty)], ret, pure, loop)
         self.uid = 0
+        self.twin = twin
+        self.tw = 0
 
     # ------------------------------------------------------------------ types
     def mk_types(self):
@@ -143,10 +145,20 @@ class FunGen:
 
     # ------------------------------------------------------------------ names and contexts
     def fresh_name(self, ctx):
+        """-> (pressure name, real name).  Visibility (shadowing) is always decided on the pressure name, so that a
+        program and its twin make the same random choices; in twin mode the real name is unique and looks generated."""
         if self.pressure or self.r.random() < 0.3:
-            return self.r.choice(self.names)      # may shadow
-        self.uid += 1
-        return "%s%d" % (self.r.choice(["q", "r", "s", "u"]), self.uid)
+            p = self.r.choice(self.names)      # may shadow
+        else:
+            self.uid += 1
+            p = "%s%d" % (self.r.choice(["q", "r", "s", "u"]), self.uid)
+        return p, self.real(p)
+
+    def real(self, p):
+        if not self.twin:
+            return p
+        self.tw += 1
+        return "%s%d" % ("x" if self.tw % 2 else "a", 100 + self.tw)
 
     @staticmethod
     def visible(ctx):
@@ -205,7 +217,7 @@ class FunGen:
     def leaf(self, ty, ctx):
         vs = self.vars_of(ctx, ty)
         if vs and self.r.random() < 0.7:
-            return T(self.r.choice(vs)[0], 1)
+            return T(self.r.choice(vs)[3], 1)
         if ty == "i64":
             return self.lit()
         if self.is_data(ty):
@@ -220,7 +232,7 @@ class FunGen:
 
     def g_var(self, ty, ctx, b, eff):
         vs = self.vars_of(ctx, ty)
-        return T(self.r.choice(vs)[0], 1) if vs else None
+        return T(self.r.choice(vs)[3], 1) if vs else None
 
     def g_op(self, ty, ctx, b, eff):
         op = self.r.choice(["+", "-", "*", "+", "-", "*", "/", "%"])
@@ -258,20 +270,21 @@ class FunGen:
 
     def g_let(self, ty, ctx, b, eff):
         bty = self.r.choice(["i64", "i64"] + self.insts)
-        name = self.fresh_name(ctx)
+        pname, name = self.fresh_name(ctx)
         bound = self.gen(bty, ctx, b // 2, eff and not self.is_codata(bty))
-        body = self.gen(ty, ctx + [(name, "prd", bty)], b // 2, eff)
+        body = self.gen(ty, ctx + [(pname, "prd", bty, name)], b // 2, eff)
         return T("let %s: %s = %s; %s" % (name, bty, bound.at(3), body.at(4)), 3, bound.pure and body.pure)
 
     def args_for(self, sig, ctx, b, eff):
         """sig: list of (name, chi, ty); returns list of texts or None"""
         out, pure = [], True
-        for _, chi, ty in sig:
+        for p_ in sig:
+            chi, ty = p_[1], p_[2]
             if chi == "cns":
                 cs = self.covars_of(ctx, ty)
                 if not cs:
                     return None, True
-                out.append(self.r.choice(cs)[0])
+                out.append(self.r.choice(cs)[3])
             else:
                 a = self.gen(ty, ctx, b // (len(sig) + 1), False)   # arguments are pure in mode seq
                 pure = pure and a.pure
@@ -310,14 +323,16 @@ class FunGen:
         ctors = self.ctors_of(sty)
         self.r.shuffle(ctors)
         for c, fs in ctors:
-            names, cctx = [], list(ctx)
+            names, pnames, cctx = [], [], list(ctx)
             for _, t in fs:
-                n = self.fresh_name(cctx)
-                while n in names:     # binders of one clause must be distinct
+                pn, n = self.fresh_name(cctx)
+                while pn in pnames:     # binders of one clause must be distinct
                     self.uid += 1
-                    n = "b%d" % self.uid
+                    pn = "b%d" % self.uid
+                    n = self.real(pn)
+                pnames.append(pn)
                 names.append(n)
-                cctx.append((n, "prd", t))
+                cctx.append((pn, "prd", t, n))
             body = self.gen(ty, cctx, b // (len(ctors) + 1), eff)
             pure = pure and body.pure
             clauses.append("%s%s => %s" % (c, "(%s)" % ", ".join(names) if names else "", body.at(4)))
@@ -326,14 +341,16 @@ class FunGen:
     def g_new(self, ty, ctx, b, eff):
         clauses, pure = [], True
         for dn, as_, rt in self.dtors_of(ty):
-            names, cctx = [], list(ctx)
+            names, pnames, cctx = [], [], list(ctx)
             for _, t in as_:
-                n = self.fresh_name(cctx)
-                while n in names:
+                pn, n = self.fresh_name(cctx)
+                while pn in pnames:
                     self.uid += 1
-                    n = "b%d" % self.uid
+                    pn = "b%d" % self.uid
+                    n = self.real(pn)
+                pnames.append(pn)
                 names.append(n)
-                cctx.append((n, "prd", t))
+                cctx.append((pn, "prd", t, n))
             # clause bodies are pure in mode seq (a destructor call is then a pure expression)
             body = self.gen(rt, cctx, max(0, b // 2), False)
             pure = pure and body.pure
@@ -364,8 +381,8 @@ class FunGen:
         return T("exit %s" % a.at(1), 3, False)
 
     def g_label(self, ty, ctx, b, eff):
-        name = self.fresh_name(ctx)
-        body = self.gen(ty, ctx + [(name, "cns", ty)], b - 1, eff)
+        pname, name = self.fresh_name(ctx)
+        body = self.gen(ty, ctx + [(pname, "cns", ty, name)], b - 1, eff)
         return T("label %s { %s }" % (name, body.at(4)), 3, False)
 
     def g_goto(self, ty, ctx, b, eff):
@@ -374,7 +391,7 @@ class FunGen:
             return None
         c = self.r.choice(cs)
         a = self.gen(c[2], ctx, b // 2, False)
-        return T("goto %s (%s)" % (c[0], a.at(4)), 3, False)
+        return T("goto %s (%s)" % (c[3], a.at(4)), 3, False)
 
     # ------------------------------------------------------------------ program
     def program(self):
@@ -384,7 +401,7 @@ class FunGen:
         tys = ["i64"] * 3 + self.insts
         for i in range(nd):
             if i == 0:
-                params = [("p%d" % k, "prd", "i64") for k in range(r.randint(0, self.max_main_params))]
+                params = [("p%d" % k, "prd", "i64", "p%d" % k) for k in range(r.randint(0, self.max_main_params))]
                 self.defs.append(dict(name="main", params=params, ret="i64", pure=False, loop=False, index=0))
                 continue
             params = []
@@ -395,19 +412,19 @@ class FunGen:
                     continue
                 used.add(n)
                 if self.labels and r.random() < 0.15:
-                    params.append((n, "cns", r.choice(["i64", "i64"] + [t for t in self.insts if self.is_data(t)])))
+                    params.append((n, "cns", r.choice(["i64", "i64"] + [t for t in self.insts if self.is_data(t)]), self.real(n)))
                 else:
-                    params.append((n, "prd", r.choice(tys)))
+                    params.append((n, "prd", r.choice(tys), self.real(n)))
             loop = r.random() < 0.4
             if loop:
-                params = [("fuel", "prd", "i64")] + [p for p in params if p[0] != "fuel"]
-            pure = r.random() < 0.5 and not any(c == "cns" for _, c, _ in params)
+                params = [("fuel", "prd", "i64", "fuel")] + [p for p in params if p[0] != "fuel"]
+            pure = r.random() < 0.5 and not any(p[1] == "cns" for p in params)
             name = r.choice(["f", "g", "h", "go", "share_f", "lift_f", "lab", "cleanup_"]) + str(i) if self.pressure else "f%d" % i
             self.defs.append(dict(name=name, params=params, ret=r.choice(tys), pure=pure, loop=loop, index=i))
         texts = []
         for d in self.defs:
             self.cur = d["index"]
-            ctx = [(n, c, t) for n, c, t in d["params"]]
+            ctx = [tuple(p) for p in d["params"]]
             b = r.randint(*self.budget_range)
             eff = not d["pure"]
             if d["loop"]:
@@ -428,7 +445,7 @@ class FunGen:
                     body = T("if fuel <= 0 { %s } else { %s }" % (base.at(4), step.at(4)), 3)
             else:
                 body = self.gen(d["ret"], ctx, b, eff)
-            ps = ", ".join("%s %s %s" % (n, ":cns" if c == "cns" else ":", t) for n, c, t in d["params"])
+            ps = ", ".join("%s %s %s" % (rn, ":cns" if c == "cns" else ":", t) for n, c, t, rn in d["params"])
             texts.append("def %s(%s): %s { %s }" % (d["name"], ps, d["ret"], body.at(4)))
         return self.decl_text() + "\n" + "\n".join(texts) + "\n"
 
